@@ -31,32 +31,46 @@ pub proof fn lemma_between_pre(w1: VKey, w2: VKey, v: VKey)
     ensures same_tuple(w2, v), w2.pre.len() > 0
 {}
 /// the opt-in of an intersection, seen from a version inside it, is the union of the operands' opt-ins
-pub proof fn lemma_gate_intersect(b1: BoundSet, b2: BoundSet, b: BoundSet, v: VKey)
-    requires bs_wf(b1), bs_wf(b2), bs_wf(b), within(b1, v), within(b2, v), within(b, v),
-        *b.lower == (if bound_cmp(*b1.lower, *b2.lower) == Ordering::Greater { *b1.lower } else { *b2.lower }),
-        *b.upper == (if bound_cmp(*b1.upper, *b2.upper) == Ordering::Greater { *b2.upper } else { *b1.upper }),
-    ensures gate(b, v) == (gate(b1, v) || gate(b2, v))
+/// the bounds of an intersection: one of the operands' lower bounds, not below either; one of their upper bounds, not above either
+/// (which operand's bound is kept at a tie -- same version and inclusivity -- is left open: no property depends on it)
+pub open spec fn inter_bounds(b1: BoundSet, b2: BoundSet, b: BoundSet) -> bool {
+    &&& (*b.lower == *b1.lower || *b.lower == *b2.lower) && (*b.upper == *b1.upper || *b.upper == *b2.upper)
+    &&& cut_cmp(cut_of(*b.lower), cut_of(*b1.lower)) != Ordering::Less && cut_cmp(cut_of(*b.lower), cut_of(*b2.lower)) != Ordering::Less
+    &&& cut_cmp(cut_of(*b.upper), cut_of(*b1.upper)) != Ordering::Greater && cut_cmp(cut_of(*b.upper), cut_of(*b2.upper)) != Ordering::Greater
+}
+/// a lower bound that is not kept opts v in only if the kept one (between it and v) does too
+proof fn lemma_gate_lower_kept(kept: Bound, lost: Bound, v: VKey)
+    requires is_lower(kept), is_lower(lost), cut_cmp(cut_of(lost), cut_of(kept)) != Ordering::Greater, above(cut_of(kept), v), v.pre.len() > 0, optin(lost, v)
+    ensures optin(kept, v)
 {
     reveal(cut_cmp);
+    let w1 = key(bound_version(lost)->0);
+    match bound_version(kept) { Some(w2) => { lemma_k_flip(w1, key(w2)); lemma_between_pre(w1, key(w2), v); }, None => {} }
+}
+proof fn lemma_gate_upper_kept(kept: Bound, lost: Bound, v: VKey)
+    requires is_upper(kept), is_upper(lost), cut_cmp(cut_of(kept), cut_of(lost)) != Ordering::Greater, below(cut_of(kept), v), v.pre.len() > 0, optin(lost, v), below(cut_of(lost), v)
+    ensures optin(kept, v)
+{
+    reveal(cut_cmp);
+    let w1 = key(bound_version(lost)->0);
+    match bound_version(kept) { Some(w2) => { lemma_k_flip(w1, key(w2)); lemma_k_flip(key(w2), v); lemma_between_pre(w1, key(w2), v); }, None => {} }
+}
+pub proof fn lemma_gate_intersect(b1: BoundSet, b2: BoundSet, b: BoundSet, v: VKey)
+    requires bs_wf(b1), bs_wf(b2), bs_wf(b), within(b1, v), within(b2, v), within(b, v), inter_bounds(b1, b2, b),
+    ensures gate(b, v) == (gate(b1, v) || gate(b2, v))
+{
+    lemma_cut_total(cut_of(*b.lower), cut_of(*b1.lower)); lemma_cut_total(cut_of(*b.lower), cut_of(*b2.lower));
     if v.pre.len() > 0 {
-        // lower side
-        let (lo_kept, lo_lost) = if bound_cmp(*b1.lower, *b2.lower) == Ordering::Greater { (*b1.lower, *b2.lower) } else { (*b2.lower, *b1.lower) };
-        if optin(lo_lost, v) {
-            let w1 = key(bound_version(lo_lost)->0);
-            match bound_version(lo_kept) { Some(w2) => { lemma_k_flip(w1, key(w2)); lemma_between_pre(w1, key(w2), v); }, None => {} }
-        }
-        let (up_kept, up_lost) = if bound_cmp(*b1.upper, *b2.upper) == Ordering::Greater { (*b2.upper, *b1.upper) } else { (*b1.upper, *b2.upper) };
-        if optin(up_lost, v) {
-            let w1 = key(bound_version(up_lost)->0);
-            match bound_version(up_kept) { Some(w2) => { lemma_k_flip(w1, key(w2)); lemma_k_flip(key(w2), v); lemma_between_pre(w1, key(w2), v); }, None => {} }
-        }
+        if optin(*b1.lower, v) { lemma_gate_lower_kept(*b.lower, *b1.lower, v); }
+        if optin(*b2.lower, v) { lemma_gate_lower_kept(*b.lower, *b2.lower, v); }
+        if optin(*b1.upper, v) { lemma_gate_upper_kept(*b.upper, *b1.upper, v); }
+        if optin(*b2.upper, v) { lemma_gate_upper_kept(*b.upper, *b2.upper, v); }
     }
 }
 pub proof fn lemma_repr_intersect(b1: BoundSet, c1: Seq<KCmp>, b2: BoundSet, c2: Seq<KCmp>, b: BoundSet)
     requires bs_wf(b1), bs_wf(b2), bs_wf(b), repr(b1, c1), repr(b2, c2),
         forall|v: VKey| #![trigger within(b, v)] (within(b, v) <==> (within(b1, v) && within(b2, v))),
-        *b.lower == (if bound_cmp(*b1.lower, *b2.lower) == Ordering::Greater { *b1.lower } else { *b2.lower }),
-        *b.upper == (if bound_cmp(*b1.upper, *b2.upper) == Ordering::Greater { *b2.upper } else { *b1.upper }),
+        inter_bounds(b1, b2, b),
     ensures repr(b, c1 + c2)
 {
     assert forall|v: VKey| #![trigger within(b, v)] wfk(v) implies (within(b, v) <==> set_ok(c1 + c2, v)) && (within(b, v) ==> (gate(b, v) <==> set_gate(c1 + c2, v))) by {
